@@ -52,6 +52,13 @@ def cases(tier):
                     s = U.spec(cls, shape, sp, org)
                     for op in ("construct", "apply_BCs", "solvePDE", "solveExplicitPDE", "scale"):
                         out.append({"grid": s, "op": op, "tier": tier})
+        # the same problem in other units: lengths x 2^k (a scales with the length), values x 2^m (c scales
+        # with the value) - exact rescalings, so every relation must hold exactly as before
+        shape = QUICK_SHAPES[d][1] if d > 1 else (3,)
+        for (k, m) in ((-30, 0), (0, -40), (40, 30), (-30, -40)):
+            s = U.spec(cls, shape, ("I",) * d, 1, k)
+            for op in ("construct", "apply_BCs", "solvePDE", "solveExplicitPDE", "scale"):
+                out.append({"grid": s, "op": op, "tier": tier, "mag": m})
     return out
 
 
@@ -95,7 +102,7 @@ def side_shape(g, ax):
     return tuple(g.dims[a] for a in range(g.d) if a != ax)
 
 
-def set_side(g, bc, ax, hi, kind, tag):
+def set_side(g, bc, ax, hi, kind, tag, amul=1.0, cmul=1.0):
     """Configure one side; returns nothing.  Face-wise arrays for R/R2, all different."""
     bf = getattr(bc, U.SIDES[ax][hi])
     sh = np.asarray(bf._a).shape
@@ -104,14 +111,14 @@ def set_side(g, bc, ax, hi, kind, tag):
     if kind == "D":
         bf.a = 0.0
         bf.b = 1.0
-        bf.c = U.generic_array(sh, tag=tag, signed=True).reshape(np.asarray(bf._c).shape) / 4.0
+        bf.c = cmul * U.generic_array(sh, tag=tag, signed=True).reshape(np.asarray(bf._c).shape) / 4.0
         return
     if kind == "N":
         bf.a = 1.0
         bf.b = 0.0
-        bf.c = U.generic_array(sh, tag=tag + 1, signed=True).reshape(np.asarray(bf._c).shape) / 4.0
+        bf.c = (cmul / amul) * U.generic_array(sh, tag=tag + 1, signed=True).reshape(np.asarray(bf._c).shape) / 4.0
         return
-    hD = face_hdelta(g, ax, hi).reshape(sh)
+    hD = face_hdelta(g, ax, hi).reshape(sh) / amul
     a = 1.0 + U.generic_array(sh, tag=tag + 2) / 64.0
     b = 2.0 + U.generic_array(sh, tag=tag + 3) / 8.0
     if kind == "R":
@@ -126,9 +133,9 @@ def set_side(g, bc, ax, hi, kind, tag):
         if not bad.any():
             break
         b = np.where(bad, b * 2.0 + 0.375, b)
-    bf.a = a
+    bf.a = a * amul
     bf.b = b
-    bf.c = (U.generic_array(sh, tag=tag + 4, signed=True) / 4.0).reshape(np.asarray(bf._c).shape)
+    bf.c = cmul * (U.generic_array(sh, tag=tag + 4, signed=True) / 4.0).reshape(np.asarray(bf._c).shape)
 
 
 def face_hdelta(g, ax, hi):
@@ -141,11 +148,12 @@ def face_hdelta(g, ax, hi):
     return np.asarray(h[tuple(sl)] * delta, dtype=float).reshape(side_shape(g, ax) or (1,))
 
 
-def make_bc(g, kinds, per):
+def make_bc(g, kinds, per, cmul=1.0):
     bc = pf.BoundaryConditions(g.mesh)
+    amul = 2.0 ** g.spec.get("scale", 0)
     for ax in range(g.d):
         for hi in (0, 1):
-            set_side(g, bc, ax, hi, kinds[2 * ax + hi], tag=200 + 10 * (2 * ax + hi))
+            set_side(g, bc, ax, hi, kinds[2 * ax + hi], tag=200 + 10 * (2 * ax + hi), amul=amul, cmul=cmul)
         if ax in per:
             getattr(bc, U.SIDES[ax][0]).periodic = True      # either face declares the axis periodic
     return bc
@@ -284,13 +292,22 @@ def run_case(case):
     op = case["op"]
     res = {"evals": 0, "nontrivial": 0, "findings": [], "outcomes": {}}
     seen = set()
+    mag = 2.0 ** case.get("mag", 0)
+    lsc = 2.0 ** g.spec.get("scale", 0)
     D = U.generic_face(g.mesh, tag=223)
-    rhs_expl = U.generic_array(g.fshape, tag=225, signed=True).ravel()
-    flds = fields(g)
+    if lsc != 1.0:          # keep D*dt/dx^2 of order one in the rescaled units
+        D = U.face_from_arrays(g.mesh, [a * lsc * lsc for a in g.face_arrays(D)])
+    rhs_expl = mag * U.generic_array(g.fshape, tag=225, signed=True).ravel()
+    flds = [(n, f * mag) for n, f in fields(g)]
     kvs = kind_vectors(g.d, tier)
     pers = periodic_subsets(g.cls, tier)
     if op in ("solvePDE", "scale") or tier == "quick":
         flds = flds[:2]
+    if op in ("construct", "apply_BCs", "solveExplicitPDE") and mag == 1.0:
+        # the initial array may be integer- or bool-typed ("a count / label / mask field"); the variable is
+        # documented to hold floats, so its boundary values must satisfy the same relation
+        ints = np.arange(1, 1 + int(np.prod(g.dims)), dtype=np.int64).reshape(g.dims) * 3 - 7
+        flds = flds + [("int64", ints), ("int32", ints.astype(np.int32)), ("bool", (ints % 2 == 0))]
     if tier == "quick" and op in ("solvePDE", "solveExplicitPDE") and g.d == 3:
         kvs = [k for k in kvs if sum(x != "N0" for x in k) != 2]       # 3-D solves: singles + uniform vectors
     if op == "scale":
@@ -300,11 +317,13 @@ def run_case(case):
     for kinds in kvs:
         for per in pers:
             for fname, fld in flds:
+                if fname in ("int64", "int32", "bool") and sum(x != "N0" for x in kinds) == 2:
+                    continue        # typed initial arrays: default, single deviations and the uniform vectors
                 if op == "construct":
-                    v = pf.CellVariable(g.mesh, fld.copy(), make_bc(g, kinds, per))
+                    v = pf.CellVariable(g.mesh, fld.copy(), make_bc(g, kinds, per, mag))
                 elif op == "apply_BCs":
                     v = pf.CellVariable(g.mesh, fld.copy())
-                    nb = make_bc(g, kinds, per)
+                    nb = make_bc(g, kinds, per, mag)
                     for s in SIDE_NAMES:
                         o, n = getattr(nb, s), getattr(v.BCs, s)
                         if np.asarray(o._a).size:
@@ -315,13 +334,13 @@ def run_case(case):
                             n.periodic = True
                     v.apply_BCs()
                 elif op == "solvePDE":
-                    v = pf.CellVariable(g.mesh, fld.copy(), make_bc(g, kinds, per))
+                    v = pf.CellVariable(g.mesh, fld.copy(), make_bc(g, kinds, per, mag))
                     pf.solvePDE(v, [pf.transientTerm(v, 0.5, 1.0), -pf.diffusionTerm(D)])
                 elif op == "solveExplicitPDE":
-                    v0 = pf.CellVariable(g.mesh, fld.copy(), make_bc(g, kinds, per))
+                    v0 = pf.CellVariable(g.mesh, fld.copy(), make_bc(g, kinds, per, mag))
                     v = pf.solveExplicitPDE(v0, 0.125, rhs_expl)
                 elif op == "scale":
-                    _scale_case(g, kinds, per, fld, D, res, seen)
+                    _scale_case(g, kinds, per, fld, D, res, seen, mag)
                     continue
                 if not np.all(np.isfinite(np.asarray(v._value)[tuple(slice(1, -1) for _ in range(g.d))])):
                     res["precond_failed"] = res.get("precond_failed", 0) + 1
@@ -336,10 +355,10 @@ def run_case(case):
     return res
 
 
-def _scale_case(g, kinds, per, fld, D, res, seen):
+def _scale_case(g, kinds, per, fld, D, res, seen, mag=1.0):
     """(a,b,c) -> lambda*(a,b,c), per side and globally, changes nothing in the solution."""
     def solve(scales):
-        bc = make_bc(g, kinds, per)
+        bc = make_bc(g, kinds, per, mag)
         for (ax, hi), lam in scales.items():
             bf = getattr(bc, U.SIDES[ax][hi])
             bf.a = np.array(bf._a) * lam
@@ -362,7 +381,7 @@ def _scale_case(g, kinds, per, fld, D, res, seen):
         got, kap2 = solve(sc)
         res["evals"] += 1
         res["nontrivial"] += 1
-        tol = 64 * EPS * max(kap, kap2) * max(1.0, float(np.max(np.abs(base))))
+        tol = 64 * EPS * max(kap, kap2) * max(mag, float(np.max(np.abs(base))))
         inner = tuple(slice(1, -1) for _ in range(g.d))
         if not np.all(np.abs(got[inner] - base[inner]) <= tol):
             k = "C03:scale_invariance:%s" % g.cls
